@@ -194,7 +194,7 @@ class Preservative:
                         Lost_Code_TXT_filename = os.path.abspath(outputfile) + ".LostCode.txt"
                         if not Lost_Code_TXT_filename in filenames_to_lines:
                             filenames_to_lines[Lost_Code_TXT_filename] = []
-                        filenames_to_lines[Lost_Code_TXT_filename].append(outputfile + "\n")
+                        filenames_to_lines[Lost_Code_TXT_filename].append(os.path.abspath(outputfile) + "\n")
                         filenames_to_lines[Lost_Code_TXT_filename].append(tag + "\n")
                         for i in self.preserved_tags_per_file[outputfile][tag]:
                             filenames_to_lines[Lost_Code_TXT_filename].append(i + "\n")
